@@ -5,6 +5,9 @@ package balloon
 // Contracts for the verifier in /verif (comment-only; see /verif/DESIGN.md).
 
 /*@
+immutable IncrementalProof.Start, IncrementalProof.End, IncrementalProof.AuditPath, IncrementalProof.Hasher by NewIncrementalProof, Balloon.QueryConsistency
+immutable MembershipProof.Exists, MembershipProof.HyperProof, MembershipProof.HistoryProof, MembershipProof.CurrentVersion, MembershipProof.QueryVersion, MembershipProof.ActualVersion, MembershipProof.KeyDigest, MembershipProof.Hasher by NewMembershipProof, Balloon.QueryDigestMembership, Balloon.QueryDigestMembershipConsistency
+
 // The digest a client checks is its own hash of the event: an API-level
 // precondition bounds its length relative to the version bytes carried by the
 // hyper proof (util.AddPaddingToBytes is only total under that relation).
@@ -16,4 +19,20 @@ func MembershipProof.DigestVerify
   modifies everything
   ensures C02/accept-implies-exists-and-ordered: result ==> p.Exists && p.ActualVersion <= p.QueryVersion
   ensures C02/accept-implies-parts: result ==> p.HyperProof != nil && p.HistoryProof != nil
+
+func NewMembershipProof
+  props C02 C12 C13
+  ensures result != nil && fresh(result)
+  ensures result.Exists == exists && result.HyperProof == hyperProof && result.HistoryProof == historyProof
+  ensures result.CurrentVersion == currentVersion && result.QueryVersion == queryVersion && result.ActualVersion == actualVersion
+  ensures result.KeyDigest == keyDigest && result.Hasher == Hasher
+
+func NewIncrementalProof
+  props C03 C12 C13
+  ensures result != nil && fresh(result)
+  ensures result.Start == start && result.End == end && result.AuditPath == auditPath && result.Hasher == hasher
+
+func IncrementalProof.Verify
+  props C03 C12
+  requires snapshotStart != nil && snapshotEnd != nil && !isnil(p.Hasher)
 @*/
